@@ -225,6 +225,12 @@ func generate(cfg *hx.Config) []hx.Case {
 	}
 	add(mk("g-burst-ok-SC", wide, []string{"sd:1:1:300000", "SC"}), "burst", "big-sd,SC")
 	add(mk("g-burstC-SR", []string{"hs:65535:2147483647", "sw:0:2147418112", "ch:1"}, []string{"cd:1:1:300000+SR"}), "burst", "big-cd+SR")
+	// 4g. both directions end at the same instant (proxy shutdown of an idle session), many times
+	nst := 6000
+	if cfg.Thorough() {
+		nst = 40000
+	}
+	add(hx.Case{Name: "s-shutdown-stress", In: []string{fmt.Sprintf("STRESS:%d:4", nst)}}, "idle", "shutdown x many")
 	// 5. controls: nothing that ends the session has happened, the relay must stay up
 	add(mk("c-idle", stateScript("idle", 0), []string{"cp", "sp"}), "idle", "none")
 	add(mk("c-mid-armed", stateScript("mid", 0), []string{"WFC", "cp"}), "mid", "none(WFC armed, no write toward the client)")
